@@ -25,7 +25,8 @@ RULE = ('every call of rotation_matrix, enu2xyz, xyz2enu, vcv_cart2local, vcv_lo
         'nearly circular horizontal block; scale 1e-8..1e2 m^2), its 3x1 diagonal column, and a joint 6x6 PSD matrix of two '
         'stations (independent, SPD, strongly correlated, rank 1, exactly PSD rank 1, identical stations, rank 3).  A finite '
         'shard enumerates 18 latitudes x 65 longitudes (poles, equator, signed zero, every 15 deg, neighbours of the '
-        'cardinal meridians) and every integer dof -5..200.  non-trivial = input inside the quantified domain (others are '
+        'cardinal meridians), every integer dof -5..200, and runs the repository\'s own tests of these functions under the '
+        'monitors.  non-trivial = input inside the quantified domain (others are '
         'counted, not judged); distinct = (function, matrix/vector class, |lat| band, pole flag, cardinal-meridian flag)')
 ASSUMPTIONS = ['numpy.linalg.eigh / scipy.stats.t.ppf, validated each shard against 40-digit mpmath closed forms',
                'tolerances are backward-error sized: 1e-14 absolute for the rotation matrix, 1e-12 relative to |v| for vectors, '
@@ -47,7 +48,7 @@ REQUIRED_COUNTERS = [
 REQUIRED_MONITORS = ['rotation_matrix', 'enu2xyz', 'xyz2enu', 'vcv_cart2local', 'vcv_local2cart', 'error_ellipse',
                      'relative_error', 'k_val95']
 
-N = {'quick': 6000, 'thorough': 30000}
+N = {'quick': 6000, 'thorough': 25000}
 SHARDS = {'quick': 15, 'thorough': 47}        # + one finite shard each
 
 TOL_ROT = 1e-14
@@ -64,7 +65,7 @@ def plan(tier, seed):
 
 def finalize(m, tier):
     c = m['counters']
-    want = {'kval_table': 120, 'kval_below_1': 6, 'kval_above_120': 80}
+    want = {'kval_table_enumerated': 120, 'kval_below_1_enumerated': 6, 'kval_above_120_enumerated': 80}
     for k, v in want.items():
         if c.get(k, 0) != v:
             raise core.Inconclusive('coverage-factor enumeration incomplete: %s = %s, expected %s' % (k, c.get(k, 0), v))
@@ -467,6 +468,8 @@ class Monitors:
         ctx.judged()
         which = 'kval_below_1' if dof < 1 else ('kval_above_120' if dof > 120 else 'kval_table')
         ctx.count(which)
+        if self.case is not None and self.case.get('fn') == 'k_val95':
+            ctx.count(which + '_enumerated')            # the complete enumeration (ambient calls are judged but not counted here)
         ctx.bucket('k_val95', which, dof if 1 <= dof <= 120 else '')
         d = {'call': 'k_val95', 'dof': dof}
         if exc is not None:
@@ -800,6 +803,47 @@ class Driver:
         self.call(self.S.k_val95, int(case['dof']))
 
 
+    # ambient workload: one test of the repository's own suite, all monitors attached --------------------------
+    def do_ambient(self, case):
+        import importlib
+        import unittest
+        self.begin(case, 'ambient')
+        modname = case['test'].rsplit('.', 2)[0]
+        mod = importlib.import_module(modname)          # imported after install(): `from x import f` binds the wrappers
+        core._assert_under(mod, self.ns.root)
+        suite = unittest.defaultTestLoader.loadTestsFromName(case['test'])
+        res = unittest.TestResult()
+        suite.run(res)
+        self.ctx.count('ambient_tests_run', res.testsRun)
+        if res.failures or res.errors:
+            # the suite's own assertions are the baseline's business, not a verdict of this property
+            self.ctx.count('ambient_tests_failing_their_own_assertions', len(res.failures) + len(res.errors))
+
+
+AMBIENT = [('geodepy.tests.test_statistics', None), ('geodepy.tests.test_geodesy', ['TestGeodesy.test_enu2xyz'])]
+
+
+def ambient_ids(ns):
+    import importlib
+    import unittest
+    ids = []
+    for modname, only in AMBIENT:
+        if only:
+            ids.extend('%s.%s' % (modname, n) for n in only)
+            continue
+        mod = importlib.import_module(modname)
+        core._assert_under(mod, ns.root)
+
+        def walk(s):
+            for t in s:
+                if isinstance(t, unittest.TestSuite):
+                    walk(t)
+                else:
+                    ids.append(t.id())
+        walk(unittest.defaultTestLoader.loadTestsFromModule(mod))
+    return sorted(ids)
+
+
 def reach_setup(ns):
     r = core.LineReach()
     for fn in (ns.statistics.rotation_matrix, ns.statistics.vcv_cart2local, ns.statistics.vcv_local2cart,
@@ -874,6 +918,10 @@ def _finite(drv, ctx, rnd):
                 drv.run({'fn': 'relative_error', 'lat': lat, 'lon': lon, 'var1': v1.tolist(), 'var2': v2.tolist(),
                          'cov12': c12.tolist(), 'jclass': jclass})
             i += 1
+    # the repository's own tests of these functions under the monitors (realistic calling patterns; guards against a
+    # monitor that is stricter than the code's legitimate behaviour)
+    for tid in ambient_ids(drv.ns):
+        drv.run({'fn': 'ambient', 'test': tid})
     for shape in ([3, 2], [2, 3], [3, 4]):
         drv.run({'fn': 'vcv_shape', 'lat': 10.0, 'lon': 20.0, 'shape': shape})
     # fixed matrices: each class once more with unit scale and the repository's own test matrix
